@@ -284,6 +284,10 @@ bool DictCompiler::BuildReverseDb(DictSettings* settings,
   // build .reverse.bin
   auto target_path = target_resolver_->ResolvePath(dict_name_ + ".reverse.bin");
   ReverseDb reverse_db(target_path);
+  // like the table and the prism, start from a fresh file: resizing the
+  // previous one in place would keep its valid format tag until the new
+  // metadata is written.
+  reverse_db.Remove();
   if (!reverse_db.Build(settings, collector.syllabary, vocabulary,
                         collector.stems, dict_file_checksum) ||
       !reverse_db.Save()) {
